@@ -196,6 +196,11 @@ def features(prog):
                     feats.add('shl8_self_assign')
                 if e[3][0] == 'bin' and e[3][1] in ('<<', '>>') and etype(e[3][2]) in ('u8', 's8'):
                     feats.add('assign16_shift8')
+                # a value whose LOW byte is a compile-time constant (x << 8, a constant) added to / subtracted from
+                # another one in a 16-bit assignment: the low bytes are folded, the carry into the high byte is not
+                if e[3][0] == 'bin' and e[3][1] in ('+', '-') and any(
+                        x[0] == 'bin' and x[1] == '<<' and x[3] == ('num', 8) for x in (e[3][2], e[3][3])):
+                    feats.add('shl8_operand_16bit_sum')
                 if rt == 's8':
                     feats.add('assign16_from_signed8')
                 if e[1] in ('<<=', '>>='):
